@@ -11,8 +11,8 @@ package tags
 //@ method Index pure
 //@ requires inrange: 0 <= arg0 && arg0 < this.Len()
 
-//@ globalinv tags.errLoopBreak: self != nil && tcomparable(typeof(self))
-//@ globalinv tags.errLoopContinueLoop: self != nil && tcomparable(typeof(self)) && self != errLoopBreak
+//@ globalinv tags.errLoopBreak: self != nil && vcomparable(self)
+//@ globalinv tags.errLoopContinueLoop: self != nil && vcomparable(self) && self != errLoopBreak
 
 //@ typeinv tags.tableRowDecorator: self > 0
 
